@@ -148,7 +148,7 @@ func seqRow(t *mTable, k int, big bool) []any {
 			out[i] = int64(k)
 		case c.Type == "varchar":
 			if big {
-				out[i] = fmt.Sprintf("B%d", k) + strings.Repeat("x", 376)
+				out[i] = fmt.Sprintf("B%d", k) // padded below
 			} else {
 				out[i] = fmt.Sprintf("r%d", k)
 			}
@@ -156,6 +156,30 @@ func seqRow(t *mTable, k int, big bool) []any {
 			out[i] = k%2 == 0
 		default:
 			out[i] = int64(k * 10)
+		}
+	}
+	if big {
+		// pad the first varchar so that the row encodes to exactly the 400-byte limit
+		// (per column one NULL-marker byte plus 4 / 8 / 1 / 4+len bytes)
+		size, first := 0, -1
+		for i, c := range t.Cols {
+			size++
+			switch c.Type {
+			case "int":
+				size += 4
+			case "bigint":
+				size += 8
+			case "boolean":
+				size++
+			case "varchar":
+				size += 4 + len(out[i].(string))
+				if first < 0 {
+					first = i
+				}
+			}
+		}
+		if first >= 0 && size < 400 {
+			out[first] = out[first].(string) + strings.Repeat("x", 400-size)
 		}
 	}
 	return out
